@@ -65,6 +65,7 @@ func init() {
 			obs = append(obs, c.LengthPrefixNarrowing("nbt", "nbt/dynbt")...)
 			obs = append(obs, c.SetExactType("nbt", "nbt.(*Decoder).unmarshal")...)
 			obs = append(obs, c.EscapePassOrder("nbt")...)
+			obs = append(obs, c.AppendTargetsTruncated("UnmarshalNBT", "nbt/dynbt")...)
 			return obs
 		},
 	}
@@ -84,6 +85,8 @@ func init() {
 			obs = append(obs, c.SNBTLiteralAfterBegin("nbt")...)
 			obs = append(obs, c.ScannerEscapeSet("nbt")...)
 			obs = append(obs, c.ScannerDelegatedSkip("nbt")...)
+			obs = append(obs, c.ScannerErrorRecorded("nbt")...)
+			obs = append(obs, c.ScannerDelegateMakesCurrent("nbt")...)
 			obs = append(obs, c.TextEntryEOF("nbt.(StringifiedMessage).MarshalNBT")...)
 			obs = append(obs, c.EscapePassOrder("nbt")...)
 			obs = append(obs, c.StringIndexGuards(pkgPred("nbt"))...)
